@@ -754,7 +754,7 @@ def c01Lights2 : List Light :=
    ⟨"z", "h", "home", .multizone 8, [0, 0, 0, 0], 0⟩]
 
 def c01Script2 : Block := Block.ofList [
-  .defMacro "N" (.int 2),
+  .defMacro "unused" (.int 9), .assign "N" (.lit (.int 2)),
   .units .raw,
   .setReg .time (.lit (.int 500)), .wait, .setReg .time (.lit (.int 0)),
   .get (.lit (.str "a")),
@@ -775,7 +775,7 @@ def c01Script2 : Block := Block.ofList [
 
 
 def c01Code2 : List Instr :=
-  [Instr.constant "N" (Val.int 2),
+  [Instr.constant "unused" (Val.int 9), Instr.moveq (Val.int 2) (Dst.var "N"),
   Instr.moveq (Val.mode (UnitMode.raw)) (Dst.reg (Reg.unitMode)),
   Instr.moveq (Val.int 500) (Dst.reg (Reg.time)),
   Instr.wait,
